@@ -156,7 +156,7 @@ def run_case(case, col=None):
             else:
                 res = None
             pres.append(('oneshot-openpipe-%s' % sname, res))
-            for pname, make in (('seekable', streams.SeekableFeed), ('pipe', streams.PipeFeed)):
+            for pname, make in (('seekable', streams.SeekableFeed), ('pipe', streams.PipeFeed), ('bytesio', streams.BytesIOFeed)):
                 pres.append(('stream-%s-%s' % (pname, sname), stream_run(codec, make, prefix, spec)))
                 # the same prefix arriving in two bursts with idle polls in between
                 for j in sorted(set(x for x in (k // 2, k - 1) if 0 < x < k)):
